@@ -92,11 +92,11 @@ def run(tier, seed):
                         ck.fail('look-up did not print a JSON document', rp | {'stdout': so[:200]}, 'not_json')
                     names = sorted(n for n, _ in d)
                     if kind == 'plid':
-                        want = ['0x%X' % dict(d)[n]['ph']['eid'] for n in names if dict(d)[n]['ph']['plid'] == val]
+                        want = ['0x%02X' % dict(d)[n]['ph']['eid'] for n in names if dict(d)[n]['ph']['plid'] == val]
                     elif kind == 'src':
-                        want = ['0x%X' % dict(d)[n]['ph']['eid'] for n in names if ascii_ref(dict(d)[n]) is not None and arg in ascii_ref(dict(d)[n])]
+                        want = ['0x%02X' % dict(d)[n]['ph']['eid'] for n in names if ascii_ref(dict(d)[n]) is not None and arg in ascii_ref(dict(d)[n])]
                     else:
-                        want = ['0x%X' % dict(d)[n]['ph']['eid'] for n in names if ascii_ref(dict(d)[n]) is not None and ascii_ref(dict(d)[n]) not in val]
+                        want = ['0x%02X' % dict(d)[n]['ph']['eid'] for n in names if ascii_ref(dict(d)[n]) is not None and ascii_ref(dict(d)[n]) not in val]
                     hit = bool(want)
                     if got is not None and got != want:
                         ck.fail('%s does not list exactly the matching PELs' % flag, rp | {'expected': want, 'actual': got}, kind + '_exact')
@@ -120,7 +120,7 @@ def run(tier, seed):
                         try:
                             doc = json.loads(so)
                             shown = doc['Private Header']['Entry Id']
-                            if not any('0x%X' % dict(d)[n]['ph']['eid'] == shown for n in have):
+                            if not any('0x%02X' % dict(d)[n]['ph']['eid'] == shown for n in have):
                                 ck.fail('--id displayed a PEL that is not stored under that id', rp | {'shown': shown}, 'id_wrong')
                         except Exception:
                             ck.fail('--id did not display the PEL stored under that id', rp | {'stdout': so[:200]}, 'id_missing')
